@@ -4,8 +4,10 @@
 use core::fmt;
 use core::ops::{Deref, DerefMut};
 
-#[cfg(not(any(verif_ccap8, verif_ccap16)))]
+#[cfg(not(any(verif_ccap8, verif_ccap16, verif_ccap64)))]
 pub const CCAP: usize = 4;
+#[cfg(verif_ccap64)]
+pub const CCAP: usize = 64;
 #[cfg(verif_ccap8)]
 pub const CCAP: usize = 8;
 #[cfg(verif_ccap16)]
